@@ -72,49 +72,66 @@ structure PState (α : Type) where
   rows : List (Row (HInf α))
   comps : List (Nat × Nat)          -- connected_components, in push order
 
-/-- both `while` loops, flattened; `none` = out of fuel -/
-def chainLoop (round32 : α → α) : Nat → PState α → Except PyErr (Option (PState α))
-  | 0, _ => .ok none
-  | fuel + 1, st =>
-    match st.chain with
-    | [] =>
-      -- while len(aggregate_graph.cluster_sizes): for node in cluster_sizes: break
-      match st.g.sizes with
-      | [] => .ok (some st)
-      | (node, _) :: _ => chainLoop round32 fuel { st with chain := [node] }
-    | node :: rest =>
-      let nbrs := (row st.g.nb node).keys.filter (· != node)
+/-- one iteration of the two nested `while` loops; `.ok none` = both loops are over -/
+def chainStep (round32 : α → α) (st : PState α) : Except PyErr (Option (PState α)) :=
+  match st.chain with
+  | [] =>
+    -- while len(aggregate_graph.cluster_sizes): for node in cluster_sizes: break
+    match st.g.sizes with
+    | [] => .ok none
+    | (node, _) :: _ => .ok (some { st with chain := [node] })
+  | node :: rest =>
+    -- aggregate_graph.neighbors[node]: a KeyError if the node was merged away
+    match st.g.nb.get? node with
+    | none => .error .keyError
+    | some rowNode =>
+      let nbrs := rowNode.keys.filter (· != node)
       if nbrs.isEmpty then
-        chainLoop round32 fuel
-          { st with chain := rest, comps := st.comps ++ [(node, (st.g.sizes.get? node).getD 0)],
-                    g := { st.g with sizes := st.g.sizes.erase node } }
-      else do
-        let (nn?, maxSim) ← nearest round32 st.g node nbrs
-        match nn?, maxSim with
-        | some nn, some ms =>
+        match st.g.sizes.get? node with
+        | none => .error .keyError
+        | some sz =>
+          .ok (some { st with chain := rest, comps := st.comps ++ [(node, sz)],
+                              g := { st.g with sizes := st.g.sizes.erase node } })
+      else
+        match nearest round32 st.g node nbrs with
+        | .error e => .error e
+        | .ok (some nn, some ms) =>
           match rest with
           | last :: rest' =>
             if last == nn then
-              if ms == (0 : α) then throw .zeroDivision
-              let size := (st.g.sizes.get? node).getD 0 + (st.g.sizes.get? nn).getD 0
-              chainLoop round32 fuel
-                { st with chain := rest', rows := st.rows ++ [{ i := node, j := nn, h := .fin (1 / ms), s := size }],
-                          g := st.g.merge node nn }
-            else chainLoop round32 fuel { st with chain := nn :: node :: last :: rest' }
-          | [] => chainLoop round32 fuel { st with chain := [nn, node] }
-        | _, _ => throw .valueError
+              if ms == (0 : α) then .error .zeroDivision
+              else
+                match st.g.sizes.get? node, st.g.sizes.get? nn with
+                | some s1, some s2 =>
+                  .ok (some { st with chain := rest',
+                                      rows := st.rows ++ [{ i := node, j := nn, h := .fin (1 / ms), s := s1 + s2 }],
+                                      g := st.g.merge node nn })
+                | _, _ => .error .keyError
+            else .ok (some { st with chain := nn :: node :: last :: rest' })
+          | [] => .ok (some { st with chain := [nn, node] })
+        | .ok _ => .error .valueError
+
+/-- both `while` loops; `none` = out of fuel -/
+def chainLoop (round32 : α → α) : Nat → PState α → Except PyErr (Option (PState α))
+  | 0, _ => .ok none
+  | fuel + 1, st =>
+    match chainStep round32 st with
+    | .error e => .error e
+    | .ok none => .ok (some st)
+    | .ok (some st1) => chainLoop round32 fuel st1
+
+/-- body of `for next_node, next_cluster_size in connected_components`; the accumulator is
+    `(dendrogram, node, cluster_size, next_cluster)` -/
+def joinStep (acc : List (Row (HInf α)) × Nat × Nat × Nat) (p : Nat × Nat) :
+    List (Row (HInf α)) × Nat × Nat × Nat :=
+  (acc.1 ++ [{ i := acc.2.1, j := p.1, h := .inf, s := acc.2.2.1 + p.2 }], acc.2.2.2, acc.2.2.1 + p.2, acc.2.2.2 + 1)
 
 /-- the joining of the connected components at infinite height -/
 def joinComponents (next : Nat) (comps : List (Nat × Nat)) (rows : List (Row (HInf α))) :
     Except PyErr (List (Row (HInf α))) :=
   match comps.reverse with
   | [] => .error .indexError
-  | (node0, size0) :: restRev =>
-    let others := restRev.reverse
-    .ok (others.foldl (fun (acc : List (Row (HInf α)) × Nat × Nat × Nat) p =>
-        let (rows, node, size, next) := acc
-        (rows ++ [{ i := node, j := p.1, h := .inf, s := size + p.2 }], next, size + p.2, next + 1))
-      (rows, node0, size0, next)).1
+  | (node0, size0) :: restRev => .ok (restRev.reverse.foldl joinStep (rows, node0, size0, next)).1
 
 /-- `Paris.fit` from the aggregate graph on, before the optional reordering; `none` = out of fuel -/
 def fitRows (round32 : α → α) (fuel : Nat) (g : AggGraph α) : Except PyErr (Option (List (Row (HInf α)))) := do
